@@ -9,7 +9,7 @@ COQ_CASE_TYPE = "case"
 COQ_AGREE = "agree"
 COQ_PROP_OK = "prop_ok"
 RULE = ("seeded configurations of 1-5 versioned harness models over the three valid flag combinations (and the invalid one, which must be refused), histories of up to 15 "
-        "trainer runs (each trainer requesting a random multiset of names incl. hidden and unknown ones; also two persistent trainers that run repeatedly and retrieve further models lazily inside train()) and state loads with random versions; exhaustive over flag "
+        "trainer runs (30% of the inference models are falsy objects; each trainer requesting a random multiset of names incl. hidden and unknown ones; also two persistent trainers that run repeatedly and retrieve further models lazily inside train()) and state loads with random versions; exhaustive over flag "
         "combinations for <= 3 models in the thorough tier. Non-trivial = at least one run that synchronises some but not all retrieved models, and one load; distinct = canonical JSON.")
 TRUSTED = [
     "Coq 8.16.1 kernel incl. vm_compute",
@@ -34,7 +34,8 @@ def gen_one(rng):
             ops.append(["runt", rng.randint(0, 1), [rng.randint(0, n) for _ in range(rng.randint(0, 2))]])
         else:
             ops.append(["load", [rng.randint(0, 50) for _ in range(n)]])
-    return {"flags": flags, "ops": ops}
+    # some inference models are falsy objects (they define __len__ and are empty): still inference models
+    return {"flags": flags, "ops": ops, "falsy": [rng.random() < 0.3 for _ in range(n)]}
 
 
 def gen(rng, tier):
@@ -45,7 +46,8 @@ def gen(rng, tier):
         for k in (1, 2, 3):
             for fl in itertools.product(VALID, repeat=k):
                 for reqs in itertools.product(range(k + 1), repeat=2):
-                    cases.append({"flags": [list(f) for f in fl], "ops": [["run", list(reqs)], ["load", list(range(3, 3 + k))], ["run", list(reqs)]]})
+                    for fz in (False, True):
+                        cases.append({"flags": [list(f) for f in fl], "falsy": [fz] * k, "ops": [["run", list(reqs)], ["load", list(range(3, 3 + k))], ["run", list(reqs)]]})
     for _ in range(5):
         c = gen_one(rng); c["flags"][rng.randrange(len(c["flags"]))] = [False, True]; c["ops"] = []; c["expect_ctor_error"] = True
         cases.append(c)
@@ -131,7 +133,7 @@ def describe(case, obs):
 
 
 def distribution(cases, obs):
-    d = {"models": {}, "flag_combos": {}, "runs": 0, "loads": 0, "sync_calls": 0, "keyerror_requests": 0}
+    d = {"models": {}, "flag_combos": {}, "falsy_inference_models": sum(sum(1 for f in (c.get("falsy") or []) if f) for c in cases), "runs": 0, "loads": 0, "sync_calls": 0, "keyerror_requests": 0}
     for c, o in zip(cases, obs):
         d["models"][str(len(c["flags"]))] = d["models"].get(str(len(c["flags"])), 0) + 1
         for f in c["flags"]:
